@@ -74,6 +74,20 @@ def check(case):
     ok, b = owned(r, "generate", pl.build, samples, opts, "Root", extra)
     if not ok:
         return r
+    st2 = case.get("second_stage")
+    if st2:
+        # the registry is used again after its names were generated: a further (flat) root model whose user-given name equals the
+        # name a nested model already has; merged and named again, then rendered - still one class per model, names distinct
+        r.label("registry-extended-after-naming")
+
+        def extend():
+            ptr = b.reg.process_meta_data(b.gen.generate(*st2["samples"]), model_name=st2["name"])
+            b.roots.append(ptr)
+            b.reg.merge_models(generator=b.gen)
+            b.reg.generate_names()
+        ok, _ = owned(r, "generate:second-stage", extend)
+        if not ok:
+            return r
     src, nested = codeview.render_owned(r, b, opts)
     if src is None:
         return r
@@ -127,7 +141,24 @@ def cases(draw, tier="quick"):
             extra.append([nm, draw(st.one_of(st.just(c["samples"][:1]), gen.sample_lists(universe, max_samples=3, max_leaves=6)))])
         if extra:
             c["extra_models"] = extra
+    elif draw(st.integers(0, 7)) == 0:
+        from ..findings import all_keys
+        holders = sorted({k for s in c["samples"] for k, v in _items(s) if isinstance(v, dict) or (isinstance(v, list) and any(isinstance(x, dict) for x in v))})
+        if holders:
+            nm = gen.class_forms(draw(st.sampled_from(holders)))[0]
+            if nm and nm[0].isalnum() and (c["opts"]["unicode"] or not gen.nfkc_unstable(nm)):
+                c["second_stage"] = {"name": nm, "samples": [{"zz_flat": 1, "zz_text": "t"}]}
     return c
+
+
+def _items(o):
+    if isinstance(o, dict):
+        for k, v in o.items():
+            yield k, v
+            yield from _items(v)
+    elif isinstance(o, list):
+        for x in o:
+            yield from _items(x)
 
 
 def sweep_cases(tier):
@@ -156,6 +187,14 @@ def sweep_cases(tier):
 
 def valid(case):
     extra = case.get("extra_models") or []
+    st2 = case.get("second_stage")
+    if st2 is not None:
+        try:
+            if not (isinstance(st2["name"], str) and st2["name"] and st2["name"][0].isalnum()
+                    and c01.valid({"samples": st2["samples"], "opts": case["opts"]})):
+                return False
+        except Exception:  # noqa: BLE001
+            return False
     try:
         names = [case["opts"].get("root", "Root")] + [x[0] for x in extra]
         if len(set(names)) != len(names) or not all(isinstance(n, str) and n and n[0].isalnum() for n in names):
